@@ -197,8 +197,14 @@ def run_case(case):
         if path is not None:
             got = impl("extract_key", nodes.extract_key, node)
             expect_eq("hexary-node-yields-path", tuple(got), path, f"extract_key of a {k} node")
-            expect_eq("hexary-node-classifies", bool(impl("is_leaf_node", nodes.is_leaf_node, node)), typ == "leaf", "is_leaf_node")
-            expect_eq("hexary-node-classifies", bool(impl("is_extension_node", nodes.is_extension_node, node)), typ == "ext", "is_extension_node")
+        # the individual predicates agree with the classification (exactly one holds)
+        for name, fn, want in (
+            ("is_blank_node", nodes.is_blank_node, typ == "blank"),
+            ("is_leaf_node", nodes.is_leaf_node, typ == "leaf"),
+            ("is_extension_node", nodes.is_extension_node, typ == "ext"),
+            ("is_branch_node", nodes.is_branch_node, typ == "branch"),
+        ):
+            expect_eq("hexary-node-classifies", bool(impl(name, fn, node)), want, f"{name} of a {k} node")
         info.label("hexnode-" + k)
         info.nontrivial = True
     return info
